@@ -355,6 +355,72 @@ fn huge_case<G: CurveTag>(total: usize, bad: Option<usize>, col: &mut Collector)
     Ok(())
 }
 
+/// Invalid copies of one proof whose errors are the alternating binomial coefficients of order k
+/// (d·(1, −2, 1), d·(1, −3, 3, −1), …) at equally spaced positions: they cancel whenever the
+/// per-instance weights are a polynomial of degree < k in the position.
+fn binomial_case<G: CurveTag>(order: usize, start: usize, gap: usize, col: &mut Collector) -> Result<(), Failure> {
+    let fx = fixture::<G>(1, 0);
+    let d = Fr::<G>::from(11u64);
+    let mut coeff: Vec<i64> = vec![1];
+    for _ in 0..order {
+        let mut next = vec![0i64; coeff.len() + 1];
+        for (i, c) in coeff.iter().enumerate() {
+            next[i] += c;
+            next[i + 1] -= c;
+        }
+        coeff = next;
+    }
+    let altered: Vec<R1CSProof<G>> = coeff
+        .iter()
+        .map(|c| {
+            let mut m = fx.mirror.clone();
+            let f = if *c < 0 { -Fr::<G>::from((-*c) as u64) } else { Fr::<G>::from(*c as u64) };
+            m.ipp.a += d * f;
+            m.to_real().unwrap()
+        })
+        .collect();
+    let total = start + gap * order + 2;
+    let members: Vec<BatchMember<G>> = (0..total)
+        .map(|i| {
+            let j = if i >= start && (i - start) % gap == 0 && (i - start) / gap <= order { Some((i - start) / gap) } else { None };
+            BatchMember { prog: &fx.prog, commitments: &fx.commitments, proof: j.map(|j| &altered[j]).unwrap_or(&fx.proof) }
+        })
+        .collect();
+    let (r, pn) = run_batch::<G>(&members, 4, (order * 1000 + start * 10 + gap) as u64);
+    if pn.is_none() && matches!(r, Some(Ok(()))) {
+        return Err(Failure::new(
+            "C07:batch-accepts:binomial-pattern",
+            format!("a batch whose invalid members carry the errors d·{:?} at positions {}, {}+{}, … is accepted: the per-instance weights are a low-degree function of the position", coeff, start, start, gap),
+            json!({"curve": G::CURVE.name(), "coefficients": coeff, "start": start, "gap": gap, "members": total}),
+        ));
+    }
+    col.class("binomial-pattern");
+    col.nontrivial(fp_of(&(G::CURVE, order, start, gap)));
+    Ok(())
+}
+
+/// a cancelling pair (final scalar ±d) at two given positions of a very long batch
+fn far_pair_case<G: CurveTag>(total: usize, p: usize, q: usize, col: &mut Collector) -> Result<(), Failure> {
+    let fx = fixture::<G>(0, 0);
+    let (mut plus, mut minus) = (fx.mirror.clone(), fx.mirror.clone());
+    let d = Fr::<G>::from(9u64);
+    plus.ipp.b += d;
+    minus.ipp.b -= d;
+    let (pp, pm) = (plus.to_real().unwrap(), minus.to_real().unwrap());
+    let members: Vec<BatchMember<G>> = (0..total).map(|i| BatchMember { prog: &fx.prog, commitments: &fx.commitments, proof: if i == p { &pp } else if i == q { &pm } else { &fx.proof } }).collect();
+    let (r, pn) = run_batch::<G>(&members, 4, (p * 7 + q) as u64);
+    if pn.is_none() && matches!(r, Some(Ok(()))) {
+        return Err(Failure::new(
+            "C07:batch-accepts:cancelling-pair-far-apart",
+            format!("a batch of {} members with a cancelling invalid pair at positions {} and {} is accepted", total, p, q),
+            json!({"curve": G::CURVE.name(), "members": total, "positions": [p, q]}),
+        ));
+    }
+    col.class("far-pair");
+    col.nontrivial(fp_of(&(G::CURVE, total, p, q)));
+    Ok(())
+}
+
 /// Two copies of one valid proof with the final scalar shifted by +k·d and -j·d at positions
 /// p and q of a short batch: weights that are small integer multiples of one another would let
 /// the pair through.
@@ -394,6 +460,13 @@ fn dispatch(sub: &str, bytes: &[u8], col: &mut Collector) -> Result<(), Failure>
 pub fn replay(sub: &str, bytes: &[u8], col: &mut Collector) -> Result<(), Failure> {
     if sub == "c07/ratio-sweep" && bytes.len() == 5 {
         return with_curve!(Curve::ALL[bytes[0] as usize % 3], G => ratio_case::<G>(bytes[1] as usize, bytes[2] as usize, bytes[3] as u64, bytes[4] as u64, col));
+    }
+    if sub == "c07/binomial" && bytes.len() == 4 {
+        return with_curve!(Curve::ALL[bytes[0] as usize % 3], G => binomial_case::<G>(bytes[1] as usize, bytes[2] as usize, bytes[3] as usize, col));
+    }
+    if sub == "c07/far-pair" && bytes.len() == 7 {
+        let u = |i: usize| (bytes[i] as usize) << 8 | bytes[i + 1] as usize;
+        return with_curve!(Curve::ALL[bytes[0] as usize % 3], G => far_pair_case::<G>(u(1), u(3), u(5), col));
     }
     if sub == "c07/huge-batch" && bytes.len() == 7 {
         let total = (bytes[1] as usize) << 16 | (bytes[2] as usize) << 8 | bytes[3] as usize;
@@ -489,6 +562,37 @@ pub fn run(tier: &str, seed: u64) -> i32 {
         );
         rep.outcome.merge(o);
         rep.outcome.exhaustive = false;
+    }
+    // errors in binomial patterns at equally spaced positions; cancelling pairs far apart
+    if rep.outcome.found.is_empty() {
+        let curves: Vec<Curve> = if tier == "thorough" { Curve::ALL.to_vec() } else { vec![Curve::ALL[(seed % 3) as usize]] };
+        let mut items = vec![];
+        let mut far = vec![];
+        for c in curves {
+            for order in 2..=5usize {
+                for (start, gap) in [(0usize, 1usize), (1, 1), (0, 2), (3, 3), (2, 7)] {
+                    items.push((c, order, start, gap));
+                }
+            }
+            for (total, p, q) in if tier == "thorough" {
+                vec![(2100usize, 5usize, 1029usize), (2100, 0, 1024), (2100, 1023, 2047), (4200, 100, 2148), (4200, 7, 4103), (8300, 3, 8195), (3000, 1, 2049), (1300, 0, 1025)]
+            } else {
+                vec![(2100, 5, 1029), (4200, 100, 2148), (2100, 0, 2048)]
+            } {
+                far.push((c, total, p, q));
+            }
+        }
+        let mut o = crate::runner::enumerate("c07/binomial", &items, &|(c, o, s, g)| vec![c.index() as u8, *o as u8, *s as u8, *g as u8], &|(c, o, s, g), col| with_curve!(*c, G => binomial_case::<G>(*o, *s, *g, col)));
+        o.exhaustive = false;
+        rep.outcome.merge(o);
+        let mut o = crate::runner::enumerate(
+            "c07/far-pair",
+            &far,
+            &|(c, t, p, q)| vec![c.index() as u8, (*t >> 8) as u8, *t as u8, (*p >> 8) as u8, *p as u8, (*q >> 8) as u8, *q as u8],
+            &|(c, t, p, q), col| with_curve!(*c, G => far_pair_case::<G>(*t, *p, *q, col)),
+        );
+        o.exhaustive = false;
+        rep.outcome.merge(o);
     }
     for (c, f) in [("all-valid", 0.02), ("cancelling-set", 0.1), ("mixed-padded-sizes", 0.1), ("mixed-phases", 0.1), ("one-invalid-at-head", 0.02), ("one-invalid-at-tail", 0.02), ("one-invalid-in-middle", 0.008), ("one-invalid-alone", 0.005), ("empty-batch", 0.005), ("capacity-insufficient-for-a-member", 0.02), ("members=1", 0.02), ("long-batch(>=40)", 0.01)] {
         rep.required_classes.push((c.to_string(), f));
